@@ -113,6 +113,13 @@ func (b *faultBackend) do(kind string, in *pokerface.GameState, f func() (*poker
 		}
 	}
 	if fail {
+		if !b.w.cfg.atomicCalls && b.st.Chance(1, 2) {
+			// the backend takes its time before it fails (a remote backend timing out): other steps can
+			// be applied to the hand meanwhile
+			d := int64(1 + b.st.Draw(1500))
+			b.SleptMs += d
+			simrt.Sleep(0, time.Duration(d)*time.Millisecond)
+		}
 		call.failed = true
 		b.injectedInCall++
 		c.Fault("F4_backend_error_" + kind)
